@@ -9,7 +9,8 @@
         KeyKeeperAction::SetKey / GetKey), set_key / get_key (one mpsc send + one oneshot reply =
         ONE actor round trip), update_key = SetKey(Some k), clear_key = SetKey(None),
         get_current_key_value / get_current_key_guid (each a get_key round trip followed by a field
-        projection), get_current_key (the whole key from ONE round trip);
+        projection), get_current_key_guid_and_value (both fields from ONE round trip; added by the
+        repair of finding F5, /repo commit a01dbe0);
      proxy_agent/src/proxy/proxy_server.rs  handle_request_with_signature
      proxy_agent/src/host_clients/wire_server_client.rs  get_goalstate / get_shared_config /
         send_telemetry_data
@@ -63,7 +64,7 @@ Definition w_init (k0 : option key) : world := World k0 [].
 Inductive read :=
 | RdValue      (* get_current_key_value().await.unwrap_or(None) *)
 | RdGuid       (* get_current_key_guid().await.unwrap_or(None) *)
-| RdWhole.     (* get_current_key().await.unwrap_or(None): both fields of ONE reply *)
+| RdWhole.     (* get_current_key_guid_and_value().await.unwrap_or(None): both fields of ONE reply *)
 
 (* a signer's locals: the last value / guid it was given (None = accessor not called; a build_request
    argument that is the literal `None` is the same thing) with the ghost epoch of that reply *)
@@ -150,7 +151,7 @@ Definition two_read_route (r : route) : list read :=
   | WsTelemetry => []
   end.
 
-(* the repaired code: one get_current_key() round trip *)
+(* the repaired code (commit a01dbe0): one get_current_key_guid_and_value() round trip *)
 Definition single_read_route (r : route) : list read :=
   match r with
   | WsTelemetry => []
@@ -160,7 +161,7 @@ Definition single_read_route (r : route) : list read :=
 (* THE MAIN MODEL: what /repo's working tree does now.  The correspondence check compares the
    number of actor round trips each real call site makes with [length (route_reads r)] and the
    emitted (id, secret) pair with this program's result, schedule by schedule. *)
-Definition route_reads (r : route) : list read := two_read_route r.
+Definition route_reads (r : route) : list read := single_read_route r.
 
 (* ---------------- executable run used by the correspondence check ---------------- *)
 (* tasks: 0 = the keeper performing [ops] in order, i+1 = signer i.  The given schedule is run,
